@@ -274,6 +274,11 @@ func (p *Payload) extractCriticalFieldsFromBytes(data []byte, traceIdFieldNames,
 
 	var keysFound int
 
+	// The trace ID is meta.trace_id when the event carries one, otherwise the value of the
+	// configured trace ID field that is listed first, wherever the fields are in the event.
+	traceIDFromField := ""
+	traceIDFieldIdx := len(traceIdFieldNames)
+
 	// Read the map header
 	mapSize, remaining, err := msgp.ReadMapHeaderBytes(data)
 	if err != nil {
@@ -329,9 +334,13 @@ func (p *Payload) extractCriticalFieldsFromBytes(data []byte, traceIdFieldNames,
 
 		// Handle special trace ID and parent ID fields
 		if !handled && valueType == msgp.StrType {
-			_, ok := sliceContains(traceIdFieldNames, keyBytes)
-			if p.MetaTraceID == "" && ok {
-				p.MetaTraceID, remaining, err = msgp.ReadStringBytes(remaining)
+			idx, ok := sliceContains(traceIdFieldNames, keyBytes)
+			if ok && idx < traceIDFieldIdx {
+				var traceID string
+				traceID, remaining, err = msgp.ReadStringBytes(remaining)
+				if err == nil && traceID != "" {
+					traceIDFromField, traceIDFieldIdx = traceID, idx
+				}
 				handled = true
 			} else if _, ok := sliceContains(parentIdFieldNames, keyBytes); ok {
 				var parentId string
@@ -374,6 +383,10 @@ func (p *Payload) extractCriticalFieldsFromBytes(data []byte, traceIdFieldNames,
 				return len(data) - len(remaining), fmt.Errorf("failed to skip value: %w", err)
 			}
 		}
+	}
+
+	if p.MetaTraceID == "" {
+		p.MetaTraceID = traceIDFromField
 	}
 
 	if keysFound < len(samplingKeyFields) {
@@ -442,19 +455,25 @@ func (p *Payload) ExtractMetadata() error {
 				handled = true
 			}
 
-			// If not handled as metadata, check for trace/parent ID fields
+			// If not handled as metadata, check for parent ID fields
 			if !handled {
-				// Check if this is a trace ID field
-				if p.MetaTraceID == "" && slices.Contains(traceIdFieldNames, key) {
-					if v, ok := value.(string); ok && v != "" {
-						p.MetaTraceID = v
-					}
-				} else if slices.Contains(parentIdFieldNames, key) {
+				if slices.Contains(parentIdFieldNames, key) {
 					// Check if this is a parent ID field
 					if v, ok := value.(string); ok && v != "" {
 						p.MetaRefineryRoot.Set(false)
 					}
 				}
+			}
+		}
+	}
+
+	// The trace ID is meta.trace_id when the event carries one, otherwise the value of the
+	// configured trace ID field that is listed first (map iteration order must not matter).
+	if p.MetaTraceID == "" {
+		for _, name := range traceIdFieldNames {
+			if v, ok := p.memoizedFields[name].(string); ok && v != "" {
+				p.MetaTraceID = v
+				break
 			}
 		}
 	}
